@@ -173,7 +173,7 @@ def _safe(fe, events):
     try:
         return _RUN[fe](events)
     except Exception as ex:  # noqa
-        return ('raise', C.exc_class(ex) + ':' + str(ex)[:60]), len(events)
+        return ('raise', C.exc_class(ex)), len(events)
 
 
 def _ref(fe, events):
@@ -280,11 +280,11 @@ def run(case):
         C.fmt(hist), C.fmt(exp), {str(k): C.fmt(v) for k, v in refs.items()})
     if hist[0] == 'raise' or exp[0] == 'raise':
         if hist[0] == 'raise' and exp[0] == 'raise':
-            res.update(status='unsupported', outcome='both_raise:' + hist[1].split(':')[0])
+            res.update(status='unsupported', outcome='both_raise:' + hist[1].split('(')[0])
             return res
         side = 'history' if hist[0] == 'raise' else 'fresh'
         who = hist if hist[0] == 'raise' else exp
-        res.update(status='violation', sig='leak|%s|%s|%s_raises:%s' % (fe, tag, side, who[1].split(':')[0]),
+        res.update(status='violation', sig='leak|%s|%s|%s_raises:%s' % (fe, tag, side, who[1]),
                    detail=detail)
         return res
     cmp_ = C.compare_status(hist, exp, tol)
